@@ -9,8 +9,8 @@ import time
 
 HERE = os.path.dirname(os.path.abspath(__file__))
 VERIF = os.path.dirname(HERE)
-RUNS_PER_WORKER = int(os.environ.get("PV_FUZZ_RUNS", "20000"))
-WORKERS = int(os.environ.get("PV_FUZZ_WORKERS", "8"))
+RUNS_PER_WORKER = int(os.environ.get("PV_FUZZ_RUNS", "50000"))
+WORKERS = int(os.environ.get("PV_FUZZ_WORKERS", "16"))
 WALL_CAP = int(os.environ.get("PV_FUZZ_WALL", "900"))
 
 
@@ -78,5 +78,9 @@ def run(mod, pid, vseed, work, agg):
             except OSError:
                 pass
         info["wall_s"] = round(time.time() - t0, 1)
+        if info["execs"] >= 2000 and info["valid_cases"] == 0:
+            # vacuity guard: the byte strings never decoded into a case of the clause's strategy (this happened silently with
+            # Hypothesis' fixed_dictionaries of four or more keys, DESIGN 9.2) - a harness error, never a verdict
+            out.setdefault("vacuous", []).append(cname)
         out["clauses"][cname] = info
     return out
